@@ -337,6 +337,87 @@ def p_mixed(h, d):
     return body()
 
 
+def make_spaced(spacing, n_blocks=3, tail=0):
+    """checkpoint every `spacing` messages; `tail` extra messages after the last checkpoint."""
+
+    def builder(h, d):
+        m1, det = d["m1"], d["det"]
+
+        def body():
+            yield Msg("open_run")
+            k = 0
+            for b in range(n_blocks):
+                yield Msg("checkpoint")
+                for j in range(spacing - 1):
+                    k += 1
+                    if j % 3 == 0:
+                        yield Msg("set", m1, float(k), group="g")
+                    elif j % 3 == 1:
+                        yield Msg("wait", None, group="g")
+                    else:
+                        yield Msg("null")
+            for j in range(tail):
+                yield Msg("sleep", None, 0.05) if j % 2 else Msg("null")
+            yield Msg("close_run")
+            P(h, "body-complete")
+
+        return body()
+
+    return builder
+
+
+def make_clearcp(pos, cleanup_shape="finalize"):
+    """clear_checkpoint after `pos` points; the rest of the run is non-resumable; cleanup in a finally."""
+
+    def builder(h, d):
+        det, m1 = d["det"], d["m1"]
+
+        def point(k):
+            yield Msg("set", m1, float(k), group="g")
+            yield Msg("wait", None, group="g")
+            yield Msg("trigger", det, group="t")
+            yield Msg("wait", None, group="t")
+            yield Msg("create", name="primary")
+            yield Msg("read", det)
+            yield Msg("save")
+
+        def body():
+            yield Msg("stage", det)
+            yield Msg("open_run")
+            for k in range(pos):
+                yield Msg("checkpoint")
+                yield from point(k)
+            yield Msg("clear_checkpoint")
+            P(h, "nonresumable-start")
+            for k in range(pos, pos + 2):
+                yield from point(k)
+                yield Msg("sleep", None, 0.05)
+            P(h, "nonresumable-end")
+            yield Msg("close_run")
+            yield Msg("unstage", det)
+            P(h, "body-complete")
+
+        def cleanup():
+            P(h, "cleanup-start")
+            yield Msg("set", m1, -1.0, group="home")
+            yield Msg("wait", None, group="home")
+            P(h, "cleanup-end")
+
+        if cleanup_shape == "finalize":
+            return bpp.finalize_wrapper(body(), cleanup)
+
+        def tryfinally():
+            try:
+                yield from body()
+            finally:
+                P(h, "cleanup-start")
+                P(h, "cleanup-end")
+
+        return tryfinally()
+
+    return builder
+
+
 CORPUS = {
     "count": p_count,
     "scan": p_scan,
@@ -353,4 +434,13 @@ CORPUS = {
     "clearcp": p_clearcp,
     "two_runs": p_two_runs,
     "rw_fail": p_run_wrapper_fail,
+    "clearcp0": make_clearcp(0),
+    "clearcp1": make_clearcp(1),
+    "clearcp2": make_clearcp(2, "tryfinally"),
+    "spaced1": make_spaced(1, 4),
+    "spaced2": make_spaced(2, 4),
+    "spaced3": make_spaced(3, 3),
+    "spaced5": make_spaced(5, 3),
+    "spaced8": make_spaced(8, 2),
+    "spaced_tail": make_spaced(3, 2, tail=6),
 }
